@@ -2,7 +2,7 @@
 SPEC = dict(
     level="exploration",
     rule="generated source logs of two source clusters (consecutive indexes, non-decreasing terms, 0-3 non-idempotent commands per entry: INCR, INCRBY, APPEND, LPUSH, RPUSH, HINCRBY, SADD, SPOP, ZINCRBY; empty entries) framed as the source cluster's log syncer frames them, delivered to the real Server.ApplyRaftReqs the way a sender does after interruptions: batches start at or before the synced position + 1, with stale re-sends, duplicates and older entries mixed in, injected propose failures followed by retries; "
-         "between deliveries raft snapshots of the receiver (KVNode.GetSnapshot), restarts from the latest snapshot (RestoreFromSnapshot + replay of the receiver's own log tail as 'replaying') and follower replicas that replay the receiver's log. "
+         "between deliveries raft snapshots of the receiver (KVNode.GetSnapshot), restarts from the latest snapshot (RestoreFromSnapshot + replay of the receiver's own log tail as 'replaying') and follower replicas that replay the receiver's log; at most once per case the sender announces a remote snapshot of X ahead of the synced position whose files never arrive (NotifyTransferSnap with ignore_remote_file_sync, then NotifyApplySnap: the restore fails), after which the position must be unchanged and the status must not read applied. "
          "A second sub-run applies the receiver's own log as it looks when duplicates raced past the receive-time filter (copies of already contained entries directly in the log), where only the apply-time filter protects. Oracle after every delivery with p = reported synced index: receiver data == lib/model applied once to source[1..p]; p monotone; p reaches the end of every delivery that reported success; per-cluster independence; after restart positions and data unchanged; follower == leader. "
          "A third sub-run puts the real sender in front: the source cluster's log syncer state machine (logSyncerSM + RemoteLogSender) is fed a generated source log over 1-3 learner incarnations (each replays from an index at or before the receiver's position + 1, with a drawn number of entries queued before it learns the remote position, transport faults, lost replies, dropped proposals, incarnations stopped with entries queued) and talks loopback gRPC to the real receiver; at every quiescent point the receiver's position equals what the sender reports as synced and the data is the source prefix applied once. "
          "non-trivial = a non-idempotent entry re-sent after it was applied, with a snapshot/restart between its first and second delivery (sender sub-run: a first batch that straddles the receiver's synced position).",
@@ -10,7 +10,7 @@ SPEC = dict(
         "the receiving cluster runs in syncer-only mode (node.SetSyncerOnly(true)), as a replication target does; the conflict check against local client writes is not exercised",
         "a correct sender never skips ahead of the receiver's synced position + 1 (the receiver only logs a warning for gaps), so gaps are not generated in the receiver sub-runs; the sender sub-run checks that the real sender keeps that promise when its learner restarts from an index at or before the receiver's position + 1",
         "sender sub-run: batch boundaries after the first batch depend on goroutine scheduling (the send loop drains whatever is queued); the oracle holds for every batching, the recorded delivery trace is the reproducible unit",
-        "the remote snapshot transfer path (NotifyTransferSnap / ApplyRemoteSnap, rsync between clusters) is not driven",
+        "of the remote snapshot hand-over only the failing restore is driven (transfer step switched to a no-op by the documented ignore_remote_file_sync option); a successful restore from files rsync brought over from another cluster is not",
         "restart = RestoreFromSnapshot on the same in-process node + replay of its own log tail; process restart with WAL is C06's subject",
     ],
     quick=[
